@@ -86,6 +86,11 @@ pub struct C01Plain {
     /// 0 natural source of the state, 1 stranger
     pub src: u8,
     pub stale: u8,
+    /// None: the bare message. Some((cipher, guess, key id, upper nonce half)): the same message inside an envelope
+    /// that anybody can make - sealed under a guessable key (sim::forge_sealed) for that key slot. Still no proof of
+    /// possession of a trusted key.
+    #[serde(default)]
+    pub seal: Option<(u8, u8, u8, bool)>,
 }
 
 pub fn c01_plain_case(ctx: &Ctx, c: &C01Plain) -> Vec<Viol> {
@@ -109,6 +114,15 @@ pub fn c01_plain_case(ctx: &Ctx, c: &C01Plain) -> Vec<Viol> {
         }
         2 | 3 => {}
         _ => bytes.extend_from_slice(&frame),
+    }
+    if let Some((cipher, guess, key_id, half)) = c.seal {
+        // counter well above anything the connection has used (the genuine sender's counters start below 2^48)
+        let mut ctr = [0u8; 8];
+        let g = lab.genuine(3);
+        if g.len() >= 8 && g[0] != 0xff {
+            ctr[1..].copy_from_slice(&g[1..8]);
+        }
+        bytes = crate::sim::forge_sealed(cipher, guess, key_id, if half { 0x80 } else { 0 }, u64::from_be_bytes(ctr).wrapping_add(1 << 20), &bytes);
     }
     let src = if c.src == 0 { lab.natural_source() } else { lab.stranger };
     let stranger = lab.stranger;
@@ -139,7 +153,7 @@ pub fn c01_plain_case(ctx: &Ctx, c: &C01Plain) -> Vec<Viol> {
             out.push(Viol::new("handshake-in-progress-broken-at-node", format!("state {:?} after a cleartext message: {}", c.state, e), cj()));
         }
     }
-    ctx.nontrivial(&("plain", c.state, c.msg, c.src, c.stale));
+    ctx.nontrivial(&("plain", c.state, c.msg, c.src, c.stale, c.seal));
     out
 }
 
@@ -151,7 +165,22 @@ pub fn c01_node(ctx: &Ctx) {
             for msg in [0u8, 1, 2, 3, 4, 0x10] {
                 for src in 0..2u8 {
                     for stale in 0..4u8 {
-                        cases.push(C01Plain { state: st, msg, src, stale });
+                        cases.push(C01Plain { state: st, msg, src, stale, seal: None });
+                    }
+                }
+            }
+            // the same messages inside an envelope sealed under a key anybody can guess, for every key slot and half
+            for msg in [0u8, 1, 3] {
+                for cipher in 0..3u8 {
+                    for guess in 0..5u8 {
+                        for key_id in 0..4u8 {
+                            for half in [false, true] {
+                                if ctx.quick() && guess >= 2 && (cipher + guess + key_id + msg) % 3 != 0 {
+                                    continue;
+                                }
+                                cases.push(C01Plain { state: st, msg, src: 0, stale: (guess + key_id) % 4, seal: Some((cipher, guess, key_id, half)) });
+                            }
+                        }
                     }
                 }
             }
@@ -160,7 +189,7 @@ pub fn c01_node(ctx: &Ctx) {
             let v = c01_plain_case(ctx, c);
             ctx.report(v);
         });
-        ctx.subspace("node level: cleartext data / node-info / keepalive / close messages (no proof of key) x 6 receiver states x 2 sources x 4 stale-buffer patterns", cases.len() as u64, true);
+        ctx.subspace("node level: data / node-info / keepalive / close messages without proof of key - bare, and sealed under 5 guessable keys x 3 ciphers x 4 key slots x 2 nonce halves - x 6 receiver states", cases.len() as u64, true);
     }
     let n: u32 = ctx.tier.pick(1_500, 12_000);
     let states = [RState::Unknown, RState::PendingInitiator, RState::PendingResponder, RState::EstLinger, RState::EstNoLinger, RState::EstResponder];
